@@ -83,6 +83,18 @@ func ghost_clpCount[K comparable, V any](m *hashmap.Map[K, V, *call[K, V]]) int 
 // number of wg.Done() calls on the wait group of a call (waiters released)
 func ghost_wgDone[K comparable, V any](c *call[K, V]) int { panic("ghost") }
 
+func mapHas[K comparable, V any](m map[K]V, k K) bool {
+	_, ok := m[k]
+	return ok
+}
+
+// keys of the innermost range-over-map iteration that have been visited so far
+func ghost_visited[K comparable](k K) bool { panic("ghost") }
+
+func ghost_calls_bulkLoad() int                            { panic("ghost") }
+func ghost_ret_bulkLoad_0[K comparable, V any]() map[K]V   { panic("ghost") }
+func ghost_ret_bulkLoad_1() error                          { panic("ghost") }
+
 // loader / completion-hook invocation log
 func ghost_calls_load() int        { panic("ghost") }
 func ghost_ret_load_0[V any]() V   { panic("ghost") }
@@ -326,7 +338,7 @@ func estOf[K comparable](s *sketch[K], k K) uint64 {
 
 //@ macro CACHEFX = $MAINT, $EVLOG, $ONDEL, $ATOMICEV, $WHOOKS, ghost_calls(*), node::expiresAt, node::refreshableAt, ghost_wgDone(*), call::wg, ghost_calls_afterWrite(), ghost_calls_afterDelete(), ghost_now(), ghost_clockRead(), ghost_calls_ExpireAfterRead(), ghost_ret_ExpireAfterRead()
 
-//@ immutable cache.nodeManager, cache.hashmap, cache.evictionPolicy, cache.expirationPolicy, cache.stats, cache.clock, cache.singleflight, cache.withTime, cache.withExpiration, cache.withRefresh, cache.withEviction, cache.isWeighted, cache.withMaintenance, cache.withStats, cache.onDeletion, cache.onAtomicDeletion, cache.expiryCalculator, cache.refreshCalculator, cache.weigher, cache.executor, cache.readBuffer, cache.writeBuffer, cache.hasDefaultExecutor, policy.isWeighted, policy.sketch, policy.window, policy.probation, policy.protected, group.calls, G:hasExp, G:hasRefresh, G:hasWeight, G:hasSize, G:hasState, G:hasExpLinks, G:key, G:value, G:weight, call.key, call.isRefresh, call.isFake
+//@ immutable Cache.cache, cache.nodeManager, cache.hashmap, cache.evictionPolicy, cache.expirationPolicy, cache.stats, cache.clock, cache.singleflight, cache.withTime, cache.withExpiration, cache.withRefresh, cache.withEviction, cache.isWeighted, cache.withMaintenance, cache.withStats, cache.onDeletion, cache.onAtomicDeletion, cache.expiryCalculator, cache.refreshCalculator, cache.weigher, cache.executor, cache.readBuffer, cache.writeBuffer, cache.hasDefaultExecutor, policy.isWeighted, policy.sketch, policy.window, policy.probation, policy.protected, group.calls, G:hasExp, G:hasRefresh, G:hasWeight, G:hasSize, G:hasState, G:hasExpLinks, G:key, G:value, G:weight, call.key, call.isRefresh, call.isFake
 
 //@ func (*cache).scheduleDrainBuffers : C01 C03 C12 C20
 //@   assumed footprint of a maintenance run triggered through the executor (C14 is not applicable)
@@ -899,3 +911,40 @@ func estOf[K comparable](s *sketch[K], k K) uint64 {
 //@   ensures [C06:same-cause-in-both-handlers] c.onDeletion != nil && c.onAtomicDeletion != nil && ghost_lpCur(c.hashmap) == n ==> ghost_arg_onDeletion_2() == ghost_arg_onAtomicDeletion_2() && same(ghost_arg_onDeletion_1[V](), ghost_value(n))
 //@   ensures [C20:eviction-counted-iff-removed] ghost_evictions() == pre(ghost_evictions()) + pickU64(ghost_lpCur(c.hashmap) == n, 1, 0) && ghost_evictionWeight() == pre(ghost_evictionWeight()) + pickU64(ghost_lpCur(c.hashmap) == n, uint64(weightOf(n)), 0)
 //@   ensures [C05:evicted-node-dead-and-unscheduled] ghost_state(n) == 2 && (c.withExpiration ==> !ghost_inWheel(n)) && (c.withEviction ==> !ghost_inDeque(queueOf(c.evictionPolicy, n), n))
+
+// ---------------------------------------------------------------------------------------------
+// C19 — persistence (per-entry clauses; wire-format fidelity of encoding/gob is not modelled)
+// ---------------------------------------------------------------------------------------------
+
+//@ func LoadCacheFrom : C19 C03
+//@   requires c != nil && c.cache != nil && cfg(c.cache) && c.cache.singleflight != nil
+//@   modifies *
+//@   loop 1: invariant [wiring-kept] c.cache != nil && cfg(c.cache) && c.cache.singleflight != nil
+//@   site Set: requires [C19:expired-not-loaded] !c.cache.withExpiration || entry.ExpiresAtNano > nowNano
+//@   site Set: requires [C19:bound-respected] size < maximum
+//@   site SetExpiresAfter: requires [C19:deadline-restored] c.cache.withExpiration && entry.ExpiresAtNano != math.MaxInt64 && int64(expiresAfter) == entry.ExpiresAtNano-nowNano && expiresAfter > 0
+//@   site SetRefreshableAfter: requires [C19:refresh-restored-or-due] c.cache.withRefresh && entry.RefreshableAtNano != math.MaxInt64 && (entry.RefreshableAtNano > nowNano ==> int64(refreshableAfter) == entry.RefreshableAtNano-nowNano) && (entry.RefreshableAtNano >= 0 && entry.RefreshableAtNano <= nowNano ==> refreshableAfter == 1)
+
+//@ func SaveCacheTo : C19
+//@   requires c != nil && c.cache != nil && cfg(c.cache) && c.cache.singleflight != nil
+//@   modifies *
+//@   site Encode: requires [C19:saved-within-bound] true
+
+//@ func (*group).doBulkCall : C10 C08 C01 C11
+//@   panics
+//@   var kstar K
+//@   requires callsInBulk != nil
+//@   requires [call-map-wf] mapHas(callsInBulk, kstar) ==> callsInBulk[kstar] != nil && same(callsInBulk[kstar].key, kstar)
+//@   modifies *
+//@   callback afterFinish: modifies $CACHEFX
+//@   loop 1: invariant [keys] callsInBulk != nil
+//@   loop 2: invariant [map-kept] mapHas(callsInBulk, kstar) == pre(mapHas(callsInBulk, kstar)) && callsInBulk[kstar] == pre(callsInBulk[kstar])
+//@   loop 2: invariant [C10:assign-supplied] ghost_visited(kstar) && mapHas(callsInBulk, kstar) && mapHas(res, kstar) ==> same(callsInBulk[kstar].value, res[kstar])
+//@   loop 2: invariant [C10:assign-unsupplied] ghost_visited(kstar) && mapHas(callsInBulk, kstar) && !mapHas(res, kstar) ==> callsInBulk[kstar].isNotFound && callsInBulk[kstar].err != nil
+//@   loop 3: invariant [C10:extra-keys-become-fake-calls] pre(mapHas(callsInBulk, kstar)) ==> mapHas(callsInBulk, kstar) && callsInBulk[kstar] == pre(callsInBulk[kstar])
+//@   loop 3: invariant [C10:assigned-results-kept] pre(mapHas(callsInBulk, kstar)) ==> (mapHas(res, kstar) ==> same(callsInBulk[kstar].value, res[kstar])) && (!mapHas(res, kstar) ==> callsInBulk[kstar].isNotFound && callsInBulk[kstar].err != nil)
+//@   loop doBulkCall$1:1: invariant [C10:error-to-every-call] ghost_visited(kstar) && mapHas(callsInBulk, kstar) ==> callsInBulk[kstar].err == err && !callsInBulk[kstar].isNotFound
+//@   loop doBulkCall$1:2: invariant [finish] callsInBulk != nil
+//@   ensures [C10:bulk-error-reaches-every-call] err != nil && pre(mapHas(callsInBulk, kstar)) ==> callsInBulk[kstar].err == err && !callsInBulk[kstar].isNotFound
+//@   ensures [C10:bulk-supplied-value-recorded] err == nil && pre(mapHas(callsInBulk, kstar)) && mapHas(ghost_ret_bulkLoad_0[K, V](), kstar) ==> same(callsInBulk[kstar].value, ghost_ret_bulkLoad_0[K, V]()[kstar])
+//@   ensures [C10:bulk-unsupplied-key-is-no-hit] err == nil && pre(mapHas(callsInBulk, kstar)) && !mapHas(ghost_ret_bulkLoad_0[K, V](), kstar) ==> callsInBulk[kstar].isNotFound && callsInBulk[kstar].err != nil
